@@ -1,4 +1,6 @@
 /- aggregator: property theorems of C03 plus the source-tie theorems regenerated from the C++
-   (whole functions Ad, ad, hat, vee) -/
+   (whole functions Ad, ad, hat, vee), plus hat / vee / Ad / ad / lie_bracket in the standard model of floating-point
+   arithmetic (C03Round) -/
 import SmoothProps.C03
+import SmoothProps.C03Round
 import SmoothProps.SrcTieImplC03
